@@ -156,6 +156,10 @@ package file
 // quoting that parse does not undo) comes back as another name, or two names collide and
 // the file no longer loads: guard clauses.)
 
+// (What is written is rendered into a buffer that was emptied in this call, before the
+// rendering: a snapshot left over from a failed save must not be written in front of the
+// new one.)
+
 //@ func (*offsetDB).save
 //@   ghost opened bool = false
 //@   ghost wrote bool = false
@@ -163,8 +167,6 @@ package file
 //@   ghost nrename int = 0
 //@   ensures nrename <= 1 && (nrename == 1 ==> opened && wrote && synced)
 //@   ghost nstr int = 0
-//@   loop 1 invariant !wrote && !synced && nrename == 0 && opened
-//@   loop 2 invariant !wrote && !synced && nrename == 0 && opened
 //@   loop 2 invariant nstr == rangeindex#2 + 1
 //@   setat "streams:" nstr := 0
 //@   setat "string(strOff.Stream)" nstr := nstr + 1
@@ -185,8 +187,11 @@ package file
 //@   callee OpenFile(name, flag, perm) (f, err)
 //@     pure
 //@     set opened := err == nil
+//@   ghost nreset int = 0
+//@   setat "o.buf = o.buf[:0]" nreset := nreset + 1
 //@   callee Write(b) (n, err)
 //@     requires opened && !wrote
+//@     requires nreset == 1
 //@     pure
 //@     set wrote := err == nil
 //@   callee Sync() (err)
